@@ -273,7 +273,7 @@ class _World:
 
     def _flip(self, q):
         # pass about half of the query names in absolute form to a relativized zone
-        return (hash(str(q)) & 1) == 0
+        return (sum(str(q).encode()) & 1) == 0
 
     def check_all(self, what):
         self.check_version(self.zone._versions[-1], self.model, what + " (newest)")
@@ -366,7 +366,7 @@ def run_case(case, keep_log=False):
             else:
                 w.step_write(st)
             w.check_all(f"after step {i} ({st['s']}{'/' + st['end'] if st['s'] == 'write' else ''})")
-            log.add(i, st["s"], hash(w.model.snapshot()) & 0xFFFFFFFF, len(w.readers))
+            log.add(i, st["s"], Z.stable_hash(w.model.snapshot()), len(w.readers))
         res.nontrivial = w.nontrivial
     except Violation as v:
         res.violation = (v.cls if ":" in v.cls else "C20:" + v.cls, v.detail)
